@@ -39,6 +39,13 @@ case format
                  "proto", "eager"}     responsiveness of the server's event loop while A's task ends (vlib/c17_stall.py):
                  a healthy client B goes on exchanging requests, a 10 ms loop heartbeat and the close() of every accepted
                  socket are timed (threshold 1.0 s, confirmed by a re-run); oracle only
+  abort case  : {"kind": "abort", "peer": rst|close_unread|fin|halfclose (how the faulty clients A0..A7 terminate),
+                 "when": at_connect|after_oc|mid|held (position of the termination in the life of A's client task),
+                 "srv": echo|raise|od_raise|close|timeout|raise_pre|return_pre|oc_raise|oc_close (how the server side tears the
+                 connection down), "k": requests written right before the termination (unread when the server acts),
+                 "tail": requests written BEHIND the trigger request, "tree", "tree2", "tls", "proto", "eager", "reps": 8}
+                 abrupt peer termination with data still unread x every server-side tear-down (vlib/c17_abort.py): a healthy
+                 client B is served after every faulty client, a new client at the end, nothing escapes serve_forever(); oracle only
 """
 from __future__ import annotations
 
@@ -46,6 +53,7 @@ import random
 from typing import Any, Iterator
 
 from vlib import core
+from vlib import c17_abort as AB
 from vlib import c17_run as R
 from vlib import c17_stall as ST
 from vlib import c17_unit as U
@@ -92,6 +100,8 @@ ASSUMPTIONS = [
     "exception classes range over the declared alphabet (vlib/c17_run.py ALPHABET) and groups of them",
     "real set-up faults (RST after accept, garbage/stalled/closed TLS handshake) are judged by the oracle only; their timing is not modelled",
     "errno-dependent logging decisions (NOT_CONNECTED errnos) are not modelled: injected OSErrors carry no errno",
+    "abrupt peer termination with unread data (kind abort: RST / close with unread answers / FIN / half-close x every server-side "
+    "tear-down) is judged by the oracle only: which error the server meets, and whether the hooks run at all, is a race",
 ]
 RULE = (
     "case = [isolation] server kind (tcp, tcp-tls, udp) x fault (exception tree x hook position | real set-up fault) x schedule (H2 held "
@@ -103,7 +113,12 @@ RULE = (
     "valid one) | [responsiveness] how the task of client A ends (handle raises after / before its first yield, returns "
     "early, on_connection raises, on_disconnection raises too, malformed request, yield time-out, handler closes the client, "
     "peer resets / closes) x peer reading / not reading the >= 128 KiB the server sent x plain / TLS x exception class x "
-    "packet size x protocol x task factory; quick = every Exception leaf class x every position of the generated nesting map once, + groups "
+    "packet size x protocol x task factory | [abrupt termination] how the faulty peer goes away (RST, close with the server's "
+    "answers unread, FIN right behind its last requests, half-close) x when (before its client task starts, right after "
+    "on_connection, after a served request, while a request is being handled) x how the server side tears the connection down "
+    "at that moment (disconnection detected, handle raises / returns / closes the client / times out, on_connection raises / "
+    "closes, on_disconnection raises too) x 0-3 requests still unread x requests behind the trigger x plain / TLS x protocol x "
+    "task factory x exception class, each x8 faulty clients per server life; quick = every Exception leaf class x every position of the generated nesting map once, + groups "
     "(flat, nested, mixed with ClientClosedError/ConnectionError, with a non-Exception leaf) + real set-up faults + unit cases "
     "(each filter alone, BaseExceptionGroup.split) on generated trees; non-trivial = a fault actually raised (or a unit "
     "case), keyed by kind/position/tree shape/leaf family; distinct by full case digest"
@@ -162,13 +177,22 @@ SKIPPED = "skipped: enough oracle violations already"
 
 MAX_STALL_VIOLATIONS = 3        # (every stalling case costs two stalls of several seconds)
 _stall_violations = 0
+MAX_ABORT_VIOLATIONS = 12       # (own breaker: the abort cases come early and must not use up the budget of the server cases)
+_abort_violations = 0
 INFRA: list[str] = []
 
 
 def run_real(case: dict) -> list[str]:
     if case["kind"] == "unit":
         return U.run_unit(case)
-    global _server_violations, _stall_violations
+    global _server_violations, _stall_violations, _abort_violations
+    if case["kind"] == "abort":
+        if _bulk and _abort_violations >= MAX_ABORT_VIOLATIONS:
+            return [SKIPPED]
+        lines = AB.run_case(case)
+        if _bulk and _oracle(case, lines):
+            _abort_violations += 1
+        return lines
     if case["kind"] == "stall":
         if _bulk and _stall_violations >= MAX_STALL_VIOLATIONS:
             return [SKIPPED]
@@ -221,8 +245,8 @@ def _eff_tree(case: dict) -> Any:
 def model_input(case: dict, real: list[str]):
     if real == [SKIPPED]:
         return None
-    if case["kind"] == "stall":
-        return None         # responsiveness: oracle only
+    if case["kind"] in ("stall", "abort"):
+        return None         # responsiveness / abrupt peer termination: oracle only
     if case["kind"] == "unit":
         toks = " ".join(R.tree_tokens(case["tree"]))
         if case["op"] == "split":
@@ -282,7 +306,7 @@ def promised(case: dict) -> bool:
     """does the property promise anything for this case (every leaf an Exception)?"""
     if case["kind"] == "unit":
         return R.is_exception_tree(case["tree"])
-    if case["kind"] == "stall":
+    if case["kind"] in ("stall", "abort"):
         return all(R.is_exception_tree(case[k]) for k in ("tree", "tree2") if case.get(k))
     f = case.get("fault")
     if not f or f.get("tree") is None or isinstance(f["tree"], str) and f["tree"].startswith("@"):
@@ -307,6 +331,8 @@ def _oracle(case: dict, real: list[str]) -> str | None:
         return None
     if case["kind"] == "stall":
         return _oracle_stall(case, real)
+    if case["kind"] == "abort":
+        return _oracle_abort(case, real)
     base = baseline(case)
     f = case.get("fault")
     if _get(real, "serving ") != "1":
@@ -418,6 +444,64 @@ def _oracle_stall(case: dict, real: list[str]) -> str | None:
     return None
 
 
+def abort_text(case: dict) -> str:
+    peer = {"rst": "resets its connection (SO_LINGER 0)", "close_unread": "closes with the server's answer unread (the kernel sends a RST)",
+            "fin": "closes right behind its last writes", "halfclose": "half-closes (SHUT_WR) right behind its last writes"}[case["peer"]]
+    when = {"at_connect": "before the server has started its client task", "after_oc": "as soon as on_connection() has completed",
+            "mid": "after a first request was answered", "held": "while a request is being handled"}[case["when"]]
+    srv = {"echo": "handle() answers every request (the disconnection is detected)", "raise": "handle() raises " + R.tree_text(case.get("tree") or "RuntimeError"),
+           "od_raise": "handle() raises " + R.tree_text(case.get("tree") or "RuntimeError") + " and on_disconnection() raises too",
+           "close": "handle() closes the client itself", "timeout": "handle() waits for each request with a time-out",
+           "raise_pre": "handle() raises " + R.tree_text(case.get("tree") or "RuntimeError") + " before its first yield",
+           "return_pre": "handle() returns before its first yield",
+           "oc_raise": "on_connection() raises " + R.tree_text(case.get("tree") or "RuntimeError"),
+           "oc_close": "on_connection() closes the client"}[case["srv"]]
+    return (f"a peer {peer} {when}, with {int(case.get('k', 0))} request(s) just written"
+            + (f" ({int(case['tail'])} behind the one that makes the handler fail)" if case.get("tail") else "")
+            + f"; server side: {srv}; {'TLS' if case.get('tls') else 'plain TCP'}"
+            + (", eager task factory" if case.get("eager") else "") + f"; {int(case.get('reps', AB.REPS))} such clients one after the other")
+
+
+def _oracle_abort(case: dict, real: list[str]) -> str | None:
+    """whatever goes wrong on one client's side — here: the peer is gone, abruptly, with data the server has not read yet, at
+    the very moment the server side tears the connection down — the server keeps running and the other clients are served
+    unaffected: B answered after every faulty client, a new client served, nothing escapes serve_forever(); every faulty
+    client's socket closed by the server, on_disconnection once iff on_connection completed, no wrong answer to A"""
+    if real and real[0].startswith("infra"):
+        INFRA.append("C17 abort case: " + real[0])
+        return None
+    g = lambda p: _get(real, p)  # noqa: E731
+    what = abort_text(case)
+    how = f" (serve_forever() ended with {g('serve-exc ')})" if g("serve-exc ") else ""
+    if g("serving ") != "1":
+        return f"the server is no longer serving after one client's failure{how}: {what}"
+    if g("servetask ") != "running":
+        return f"serve_forever() ended after one client's failure{how}: {what}"
+    if g("serve-end ") != "clean":
+        return "serve_forever() raised at shutdown: " + str(g("serve-end ")) + ": " + what
+    to = g("harness-timeouts ")
+    if g("b ") != "ok":
+        return f"healthy client B was not served as if nothing had happened: {g('b ')!r}" + (f" (bounds expired: {to})" if to else "") + ": " + what
+    if g("new ") != "ok":
+        return f"a new client was not served afterwards: {g('new ')!r}: {what}"
+    if g("healthy-hooks ") != "ok":
+        return "hooks of a healthy client disturbed: " + str(g("healthy-hooks "))
+    if to is not None:
+        return f"no answer within the (retried, 12 s) bound while the server is alive: {to}: {what}"
+    n, m = (g("a-connected ") or "0/0").split("/")
+    if n != m:
+        return f"only {n} of the {m} faulty clients could connect although the server is alive: {what}"
+    n, m = (g("a-server-sockets-closed ") or "0/0").split("/")
+    if n != m:
+        return f"the server closed the socket of only {n} of the {m} terminated clients: {what}"
+    if g("a-hooks ") != "ok":
+        return f"on_disconnection must run exactly once iff on_connection completed, but: {g('a-hooks ')}: {what}"
+    if g("a-answers ") != "ok":
+        return (f"a terminating client was answered something else than the handler's script says ({' '.join(AB.expected_answers(case)) or 'nothing'}"
+                f"{', exactly' if case['peer'] == 'halfclose' and case['srv'] == 'echo' else ', or a prefix of it'}): {g('a-answers ')}: {what}")
+    return None
+
+
 def expected_faulty(case: dict) -> list[str]:
     """answers the faulty client must get when it sends malformed input: every valid request before the malformed packet
     is answered by the generator it belongs to (2 requests per generator); a handler that catches the parse error
@@ -483,6 +567,13 @@ def nontrivial(case: dict, real: list[str]) -> str | None:
                 f"{'reading' if case.get('reading') else 'notreading'}/{case.get('proto', 'copy')}/"
                 + (f"{_shape(case['tree'])}/{_family(case['tree'])}" if case["end"] in ST.RAISING_ENDS and case.get("tree") else "-")
                 + f"/outq={_get(real, 'outq-at-close ')}")
+    if case["kind"] == "abort":
+        if real and real[0].startswith("infra") or (_get(real, "a-connected ") or "0/").startswith("0/"):
+            return None
+        return (f"abort{'+tls' if case.get('tls') else ''}{'+eager' if case.get('eager') else ''}/{case['peer']}/{case['when']}/{case['srv']}/"
+                f"k{int(case.get('k', 0))}t{int(case.get('tail', 0))}/{case.get('proto', 'copy')}/"
+                + (f"{_shape(case['tree'])}/{_family(case['tree'])}" if case.get("tree") else "-")
+                + ("/reached" if _get(real, "fault-reached ") not in (None, "0") else "/raced"))
     f = case.get("fault")
     if not f:
         return None
@@ -506,6 +597,9 @@ def known_key(case: dict, real: list[str], why: str) -> str:
         clause = "loop-blocked" if "event loop was blocked" in why else "linger-timeout" if "SO_LINGER on" in why else \
             "-".join(why.replace("(", " ").split()[:5])
         return f"stall,tls={int(bool(case.get('tls')))},{clause}"
+    if case["kind"] == "abort":
+        clause = "server-down" if ("no longer serving" in why or "serve_forever() ended" in why) else "-".join(why.replace("(", " ").split()[:5])
+        return f"abort,tls={int(bool(case.get('tls')))},peer={case['peer']},srv={case['srv']},{clause}"
     f = case.get("fault") or {}
     if case.get("eager"):
         case = {**case, "kind": case["kind"] + "+eager"}
@@ -531,6 +625,25 @@ def shrink(case: dict) -> Iterator[dict]:
             yield {k: v for k, v in case.items() if k not in ("eager", "proto", "kib")}
         if not isinstance(case.get("tree"), str) and case.get("tree"):
             yield {**case, "tree": R.leaves(case["tree"])[0]}
+        return
+    if case["kind"] == "abort":
+        cands = []
+        if case.get("eager") or case.get("proto", "copy") != "copy":
+            cands.append({k: v for k, v in case.items() if k not in ("eager", "proto")})
+        if case.get("tls"):
+            cands.append({k: v for k, v in case.items() if k != "tls"})
+        if case.get("tail"):
+            cands.append({k: v for k, v in case.items() if k != "tail"})
+        for k2 in ("tree", "tree2"):
+            if case.get(k2) and not isinstance(case[k2], str):
+                cands.append({**case, k2: R.leaves(case[k2])[0]})
+        if int(case.get("k", 0)) > 1:
+            cands.append({**case, "k": 1})
+        if int(case.get("k", 0)) == 1:
+            cands.append({**case, "k": 0})
+        for c in cands:
+            if AB.valid(c):
+                yield c
         return
     f = case.get("fault")
     if not f:
@@ -730,6 +843,87 @@ def stall_matrix(rng: random.Random, thorough: bool) -> Iterator[dict]:
                          eager=rng.random() < 0.5)
 
 
+def abort_case(peer: str, when: str, srv: str, rng: random.Random, **kw: Any) -> dict | None:
+    """abrupt peer termination with unread data x server-side tear-down (vlib/c17_abort.py); None: not a valid combination"""
+    k = kw.get("k")
+    if k is None:
+        k = rng.choice([1, 1, 2, 3] if srv in AB.TRIGGER_SRVS and when != "held" else [0, 1, 1, 2, 3])
+    c: dict = {"kind": "abort", "peer": peer, "when": when, "srv": srv, "k": int(k)}
+    tail = kw.get("tail")
+    if tail is None:
+        tail = rng.choice([0, 0, 1, 2]) if srv in AB.TRIGGER_SRVS else 0
+    if tail:
+        c["tail"] = int(tail)
+    if srv in AB.TREE_SRVS:
+        c["tree"] = kw.get("tree") or rng.choice(R.EXC_LEAVES)
+    if srv == "od_raise":
+        c["tree2"] = kw.get("tree2") or rng.choice(R.EXC_LEAVES)
+    if kw.get("tls"):
+        c["tls"] = True
+    if kw.get("proto", rng.choice(["copy", "copy", "buffered"])) == "buffered":
+        c["proto"] = "buffered"
+    if kw.get("eager", rng.random() < EAGER_SHARE):
+        c["eager"] = True
+    return c if AB.valid(c) else None
+
+
+def abort_smoke(rng: random.Random) -> Iterator[dict]:
+    for args, kw in (
+        (("rst", "at_connect", "echo"), {"k": 1}),
+        (("rst", "after_oc", "raise"), {"k": 1, "tail": 0, "tree": "ValueError"}),
+        (("rst", "held", "close"), {"k": 2, "tail": 0}),
+        (("fin", "mid", "echo"), {"k": 2}),
+        (("close_unread", "held", "od_raise"), {"k": 1, "tail": 0, "tree": "OSError", "tree2": "RuntimeError"}),
+        (("halfclose", "after_oc", "echo"), {"k": 3}),
+        (("rst", "at_connect", "return_pre"), {"k": 0, "eager": True}),
+    ):
+        c = abort_case(*args, rng, **{"proto": "copy", "eager": False, **kw})
+        assert c is not None
+        yield c
+
+
+def abort_matrix(rng: random.Random, thorough: bool) -> Iterator[dict]:
+    # every way the peer goes away x every position x every server-side tear-down, plain TCP
+    for peer in AB.PEERS:
+        for when in AB.WHENS:
+            for srv in AB.SRVS:
+                for _ in range(2 if thorough else 1):
+                    c = abort_case(peer, when, srv, rng)
+                    if c is not None:
+                        yield c
+    # the bare termination (nothing written) where the client task runs before the loop's read callback: eager tasks, held handler
+    for peer in ("rst", "fin"):
+        for srv in AB.START_SRVS + ("echo", "timeout"):
+            c = abort_case(peer, "at_connect", srv, rng, k=0, eager=True)
+            if c is not None:
+                yield c
+        for srv in AB.TRIGGER_SRVS + ("echo",):
+            c = abort_case(peer, "held", srv, rng, k=0, tail=0)
+            if c is not None:
+                yield c
+    # TLS (the peer is an asyncio stream client: rst / fin without close_notify)
+    for peer in ("rst", "fin"):
+        for when in AB.WHENS:
+            for srv in (AB.SRVS if thorough else rng.sample(AB.SRVS, 3)):
+                c = abort_case(peer, when if srv not in AB.START_SRVS else "at_connect", srv, rng, tls=True)
+                if c is not None:
+                    yield c
+    # every exception class / groups at the raising tear-downs
+    leaves = list(R.EXC_LEAVES)
+    rng.shuffle(leaves)
+    trees = leaves + group_trees(rng, R.EXC_LEAVES)[:3]
+    for i, t in enumerate(trees):
+        srv = AB.TREE_SRVS[i % len(AB.TREE_SRVS)]
+        when = "at_connect" if srv in AB.START_SRVS else rng.choice(AB.WHENS)
+        c = abort_case(rng.choice(["rst", "rst", "close_unread", "fin"]) if when != "at_connect" else rng.choice(["rst", "fin"]), when, srv, rng, tree=t)
+        if c is not None:
+            yield c
+    for _ in range(40 if thorough else 12):
+        c = abort_case(rng.choice(AB.PEERS), rng.choice(AB.WHENS), rng.choice(AB.SRVS), rng, tls=rng.random() < 0.2, eager=rng.random() < 0.5)
+        if c is not None:
+            yield c
+
+
 def unit_cases(rng: random.Random, n: int) -> Iterator[dict]:
     pool_all = R.EXC_LEAVES + R.BASE_LEAVES
     for i in range(n):
@@ -770,6 +964,9 @@ def generate(rng: random.Random, tier: str, boost: int) -> Iterator[dict]:
     # … and the responsiveness of the loop while one client's task ends with unacknowledged data in its send queue
     srng = core.sub_rng(core.seed_from_env(), ID, tier, "stall", boost)       # (the stream of the older generators is unchanged)
     yield from stall_smoke(srng)
+    # … and peers that go away abruptly with data still unread, at every position of the server-side tear-down (x8 per server life)
+    arng = core.sub_rng(core.seed_from_env(), ID, tier, "abort", boost)
+    yield from abort_smoke(arng)
     # every leaf class alone through every unit filter (exhaustive over the alphabet)
     for leaf in R.EXC_LEAVES + R.BASE_LEAVES:
         for flt in UNIT_FILTERS:
@@ -781,6 +978,7 @@ def generate(rng: random.Random, tier: str, boost: int) -> Iterator[dict]:
     rounds = (6 if thorough else 1) * boost
     for rnd in range(rounds):
         yield from stall_matrix(srng, thorough)
+        yield from abort_matrix(arng, thorough)
         yield from bad_matrix(rng)
         for kind in ("tcp", "udp", "tcp-tls"):
             # the full class x position matrix
@@ -824,4 +1022,5 @@ def extra_coverage(stats: core.Stats) -> dict:
     return {"translator_error": iso_tables.last_error,
             "alphabet": {"exception_leaves": R.EXC_LEAVES, "non_exception_leaves": R.BASE_LEAVES, "injected_non_exception": R.BASE_INJECTED},
             "positions": {k: positions(k) for k in ("tcp", "tcp-tls", "udp")},
-            "baselines_run": sorted(_baseline)}
+            "baselines_run": sorted(_baseline),
+            "cases_rerun_because_of_a_foreign_connection": list(R.FOREIGN_RERUNS)}
